@@ -825,14 +825,14 @@ def run(ctx):
     evaluate_conn(ctx, res, cases, 'resource-limits')
     res['scopes']['resource_limit_messages'] = {'messages': len(big), 'cases': len(cases)}
     # (c) seeded generated
-    n = 150000 if ctx.deep else 9000
+    n = 150000 if ctx.deep else 7000
     evaluate_conn(ctx, res, gen_conn_cases(rng, n), 'generated')
     res['scopes']['generated_conn'] = n
     # (d) session level
     small_big = [BIG[k](d) for k in ('deep-list', 'deep-id-response', 'digits-id', 'digits-bare', 'deep-unclosed')
                  for d in ((1000, 5000, 100000) if not ctx.deep else BIG_SIZES)]
     pool = odd + small_big * 3
-    ns = 12000 if ctx.deep else 500
+    ns = 12000 if ctx.deep else 400
     scases = [(pn, setup_for(pn, 'mixed'), [m]) for m in small_big for pn in ('v2', 'v1')]
     scases += gen_session_cases(rng, ns, pool)
     evaluate_sessions(ctx, res, scases, 'session')
